@@ -21,12 +21,13 @@ from vt import Infra
 AREA = "init"
 # ----------------------------------------------------------------- type domain
 SCALARS = ["int", "char", "long", "float", "double", "ptr", "bool", "short"]
-ARRAYS = ["i2", "i3", "i0", "i22", "i02", "l3", "p2", "d2"]
-CHARS = ["c4", "c0", "c3", "uc4", "h4", "h0", "U4", "w4", "w0", "c24"]
+ARRAYS = ["i2", "i3", "i0", "i22", "i02", "l3", "p2", "d2", "i8", "i33"]
+CHARS = ["c4", "c0", "c3", "uc4", "h4", "h0", "U4", "w4", "w0", "c24", "c100"]
 STRUCTS = ["sii", "scl", "sfd", "sn", "sn2", "sa", "sa3", "as", "as0", "asa", "sbf", "sbf2", "sub", "sub2",
-           "san", "sau", "sau2", "u", "us", "ub", "su", "au", "sf", "sfs", "sfc", "sc4", "sw", "sp"]
+           "san", "sau", "sau2", "u", "us", "ub", "su", "au", "sf", "sfs", "sfc", "sc4", "sw", "sp", "s56", "u40"]
 ALL_TYPES = SCALARS + ARRAYS + CHARS + STRUCTS
-HEAVY = ["c24", "sw", "sc4", "u", "i02", "su", "sfc", "as0", "au", "sf", "sfs", "asa", "sa3", "sn2", "i22"]   # many spellings: small bound only
+BIG = ["i8", "i33", "c100", "s56", "u40"]          # 32, 36, 100, 56, 40 bytes: the block zero-fill of automatic objects
+HEAVY = BIG + ["c24", "sw", "sc4", "u", "i02", "su", "sfc", "as0", "au", "sf", "sfs", "asa", "sa3", "sn2", "i22"]   # many spellings: small bound only
 DEEP5 = ["i3", "i0", "sii", "sn", "sa", "as", "san", "sau", "sbf", "sub", "us", "c3"]
 
 CT = dict(int="int", char="char", short="short", long="long", uint="unsigned", bool="_Bool", float="float",
@@ -35,6 +36,7 @@ CT = dict(int="int", char="char", short="short", long="long", uint="unsigned", b
 PRELUDE = r'''
 int printf(const char *, ...);
 int fflush(void *);
+long c05_clobber(void);            /* harness/c/c05_clobber.c, compiled by gcc: every caller-saved register non-zero */
 static struct { char c; int m[12]; } G;
 static void P(long v) { printf(" %ld", v); }
 static long PP(int *p) { return p ? (long)((char *)p - (char *)&G.m[0]) : -1; }
@@ -221,6 +223,7 @@ def render_case(T, i, c):
     s = ["static %s = %s;" % (T.decl(c.ty, "s%d" % i), c.text),
          "static void f%d(void) {" % i]
     if not flex_used:
+        s.append(" c05_clobber();")          # the definition is reached with stale registers (and a poisoned stack)
         s.append(" %s = %s;" % (T.decl(c.ty, "a"), c.text))
     s.append(' printf("C %d S");' % i)
     s.append(" " + " ".join(dump_expr(k, "s%d%s" % (i, e)) for p, e, k in lv))
@@ -263,6 +266,17 @@ def batch_source(T, batch, lines=None):
     return "".join(parts)
 
 
+def clobber_obj(ctx):
+    """harness/c/c05_clobber.c compiled by gcc, once per run"""
+    o = os.path.join(ctx.scratch, "c05_clobber.o")
+    if not os.path.exists(o):
+        r = vt.sh(["gcc", "-O1", "-c", "-o", o + ".tmp.o", os.path.join(vt.VERIF, "harness/c/c05_clobber.c")])
+        if r.returncode:
+            raise Infra("c05_clobber.c does not compile: " + r.stderr[-500:])
+        os.replace(o + ".tmp.o", o)
+    return o
+
+
 REJECT_LIMIT = int(os.environ.get("C05_REJECT_LIMIT", "6"))
 
 
@@ -272,6 +286,7 @@ def run_batches(ctx, compiler, tree, T, cases, tag, per=300, limit=None):
     diagnostic's line number (the position in the output), removed, and the rest of its batch is retried; after
     REJECT_LIMIT culprits in one batch the rest of that batch is left unjudged (it is counted)."""
     d = ctx.tmp("prog-%s-%s" % (tag, compiler))
+    cobj = clobber_obj(ctx)
     batches = [cases[k:k + per] for k in range(0, len(cases), per)]
     limit = limit or REJECT_LIMIT
 
@@ -284,9 +299,9 @@ def run_batches(ctx, compiler, tree, T, cases, tag, per=300, limit=None):
             with open(src, "w") as f:
                 f.write(batch_source(T, batch, lines))
             if compiler == "gcc":
-                cmd = ["gcc", "-w", "-std=gnu11", "-O0", "-o", exe, src]
+                cmd = ["gcc", "-w", "-std=gnu11", "-O0", "-o", exe, src, cobj]
             else:
-                cmd = [tree + "/chibicc", "-I" + tree + "/include", "-o", exe, src]
+                cmd = [tree + "/chibicc", "-I" + tree + "/include", "-o", exe, src, cobj]
             p = vt.run_limited(cmd, timeout=180)
             if p.returncode != 0:
                 err = "\n".join(l for l in p.stderr.splitlines() if "GNU-stack" not in l and "NOTE:" not in l)
@@ -555,7 +570,11 @@ def run(ctx):
     ctx.phase("control")
     out = os.path.join(ctx.scratch, "beh.ndjson")
     # the complete graph for every type at the small bound ...
-    generate(ctx, ALL_TYPES, out, MaxItems=3 if q else 4, MaxDesig=2)
+    if q:
+        generate(ctx, ALL_TYPES, out, MaxItems=3, MaxDesig=2)
+    else:       # the 56-byte struct and int[3][3] have very many spellings at 4 items; 3 suffice for them
+        generate(ctx, [t for t in ALL_TYPES if t not in ("s56", "i33")], out, MaxItems=4, MaxDesig=2)
+        generate(ctx, ["s56", "i33"], out, MaxItems=3, MaxDesig=2)
     # ... and one item more: quick = a seed-selected fifth of the lighter types, thorough = a fixed set
     # of small types at 5 items (no ranges / trailing commas there)
     light = [t for t in ARRAYS + CHARS + STRUCTS if t not in HEAVY]
